@@ -56,6 +56,56 @@ func sweepVsAckScenario(preempt int) *mcx.Scenario {
 	}
 }
 
+// The same sweep concurrent with a request that ends WITHOUT an acknowledgement (its context is
+// cancelled): the request's own clean-up and the sweep (retransmission branch, or expiry branch
+// after MAX_RETRANSMIT copies) both reach the pending clone.
+func sweepVsCancelScenario(expiry bool, preempt int) *mcx.Scenario {
+	branch := "retransmission"
+	if expiry {
+		branch = "expiry"
+	}
+	return &mcx.Scenario{
+		Name:   fmt.Sprintf("pool: %s sweep concurrent with the cancellation of the unacknowledged request, method-entry points, preempt<=%d", branch, preempt),
+		Bounds: mcx.Bounds{Preempt: preempt, Env: -1, Select: 0},
+		Body: func(s *vrt.Sched) func() (string, []mcx.Finding) {
+			done := false
+			vrt.App("env", func() {
+				w := udpw.New(udpw.Opts{NStart: 1, MaxRetransmit: 1, AckTimeout: T, LimitTotal: 2, LimitEndpoint: 2})
+				tok := message.Token{0xA8}
+				ctx, cancel := context.WithCancel(context.Background())
+				vrt.App("do", func() {
+					req := w.Request(ctx, codes.GET, "/r", tok, message.Confirmable, nil)
+					resp, err := w.CC.Do(req)
+					if err == nil {
+						w.CC.ReleaseMessage(resp)
+					}
+					done = true
+				})
+				vrt.Quiesce("env: first copy on the wire")
+				if len(w.NewOuts()) != 1 {
+					return
+				}
+				if expiry {
+					vrt.Advance(T + delta)
+					w.CC.CheckExpirations(vrt.Now()) // the one retransmission
+					vrt.Quiesce("env: retransmitted")
+				}
+				vrt.Advance(2*T + delta) // retransmission (or, after MAX_RETRANSMIT copies, expiry) is due
+				now := vrt.Now()
+				track.Points()
+				vrt.App("housekeeper", func() { w.CC.CheckExpirations(now) })
+				vrt.App("canceller", func() { cancel() })
+				vrt.Quiesce("env: both done")
+				// whoever acquires next gets what the pool holds
+				m := w.CC.AcquireMessage(context.Background())
+				m.SetCode(codes.POST)
+				w.CC.ReleaseMessage(m)
+			})
+			return func() (string, []mcx.Finding) { return fmt.Sprint(done), nil }
+		},
+	}
+}
+
 func c12Scenarios(thorough bool) []*mcx.Scenario {
 	if !track.Enabled {
 		return nil
@@ -64,5 +114,5 @@ func c12Scenarios(thorough bool) []*mcx.Scenario {
 	if thorough {
 		p = 3
 	}
-	return []*mcx.Scenario{sweepVsAckScenario(p)}
+	return []*mcx.Scenario{sweepVsAckScenario(p), sweepVsCancelScenario(false, p), sweepVsCancelScenario(true, p)}
 }
